@@ -461,5 +461,9 @@ def _assign_auxiliaries(a, fields, auxiliaries, no_velocity):
             a.anisotropy = True
             setattr(a, nm, value)
         else:
+            # the name comes from the file, it may only add or update a plain number
+            if prop.startswith("_") or not isinstance(getattr(a, prop, 0.0), float):
+                emsg = "invalid name of auxiliary property %r" % prop
+                raise StructureFormatError(emsg)
             setattr(a, prop, value)
     return
